@@ -948,7 +948,7 @@ def p_C15(ctx):
         for c in cs:
             c.update({"fac": {"mode": "loc", "loc": "PENINSULA", "red1": [500, 500, 100]}, "kexp": [0, 1], "area": [1, 1], "lm": False, "runs": runs})
             yield c
-    ctx.replay(cfg(stride(vlib.mc_cases(st), 10 if ctx.quick else 1, ctx.seed % 10 if ctx.quick else 0)), "mixes", "Trace_C15")
+    ctx.replay(cfg(stride(vlib.mc_cases(st), 12 if ctx.quick else 1, ctx.seed % 12 if ctx.quick else 0)), "mixes", "Trace_C15")
     ctx.samples += ctx.sample_from_trace(ctx.last_trace, 2, fields=("case", "tag", "comps"))
     ctx.extra["mixes"] = ctx.ncases
     ctx.replay(file_cases(runs, locs=("PENINSULA", "CANARIAS")), "files", "Trace_C15")
@@ -956,7 +956,7 @@ def p_C15(ctx):
     ctx.assumptions = ["the specification has '= 0' where the code has its 0.01 kWh thresholds (the quantifier only has values that are 0 or >= 0.01 kWh)",
                        "the DHW fraction (an f32 ratio) is compared within 2e-4 + 2e-4 relative", TRUST,
                        "components tagged CTEEPBD_EXCLUYE_* are not recomputed (TLC strings are atomic); they are only covered by the value/error, misc-key and invariance clauses"]
-    return ctx.finish("TLC enumerates DHW supply mixes (2^7 x 3 combinations of direct electric, PV, heat pump, solar thermal, gas, district heat, biomass with/without output, densified biomass) x other services x non-EPB use x auxiliaries x demand {consistent, absent, zero}, checks range, closed forms, invariances and error classes on Acs!AcsFraction, and the mixes are replayed (one tenth in the quick tier): TLC recomputes the fraction from the logged inputs and compares value or error class, misc keys and invariance under k_exp / scaling / removal of non-EPB use / removal of the other services' non-electric use; shipped files and random buildings add the relational clauses; non-trivial = cases with a fraction strictly between 0 and 1")
+    return ctx.finish("TLC enumerates DHW supply mixes (2^7 x 3 combinations of direct electric, PV, heat pump, solar thermal, gas, district heat, biomass with/without output, densified biomass) x other services x non-EPB use x auxiliaries x demand {consistent, absent, zero}, checks range, closed forms, invariances and error classes on Acs!AcsFraction, and the mixes are replayed (one twelfth in the quick tier): TLC recomputes the fraction from the logged inputs and compares value or error class, misc keys and invariance under k_exp / scaling / removal of non-EPB use / removal of the other services' non-electric use; shipped files and random buildings add the relational clauses; non-trivial = cases with a fraction strictly between 0 and 1")
 
 
 PROPS = {
